@@ -24,6 +24,13 @@ from ufl.protocols import id_or_none
 __all_classes__ = ["Integral"]
 
 
+def _as_builtin_int(i):
+    """Convert an integer of any type (e.g. numpy.int64) to a builtin int."""
+    if isinstance(i, numbers.Integral) and not isinstance(i, bool):
+        return int(i)
+    return i
+
+
 class Integral:
     """An integral over a single domain."""
 
@@ -67,6 +74,13 @@ class Integral:
         self._integrand = integrand
         self._integral_type = integral_type
         self._ufl_domain = domain
+        # Store subdomain ids as builtin ints: a numpy integer is equal to the int of the same value
+        # but prints as e.g. "np.int64(1)", which would change the order of the integrals in the form
+        # and the signature of otherwise equal forms
+        if isinstance(subdomain_id, tuple):
+            subdomain_id = tuple(_as_builtin_int(i) for i in subdomain_id)
+        else:
+            subdomain_id = _as_builtin_int(subdomain_id)
         self._subdomain_id = subdomain_id
         self._metadata = metadata
         self._subdomain_data = subdomain_data
